@@ -274,6 +274,7 @@ def run_parallel(tasks, san=False, nproc=None, case_timeout=20.0):
     buckets = [indexed[i::nproc] for i in range(nproc)]
     ctx = mp.get_context('fork')
     results, crashes = [], []
+    unconfirmed = []        # workers that died / were killed on a call that returns normally when re-run alone (load)
     workers = {}
 
     def start(wid, tl, skip):
@@ -321,7 +322,11 @@ def run_parallel(tasks, san=False, nproc=None, case_timeout=20.0):
                     continue
                 tk = dict(rest)[tid]
                 case = [cs for cs in tk.cases if (cs[0] if isinstance(cs[0], int) else 0) == j][0]
-                crashes.append(_crash_finding(tk, case, 'crash (exit code %s)%s' % (w['p'].exitcode, '' if inc else ' outside the compiled call'), byname))
+                cf = _crash_finding(tk, case, 'crash (exit code %s)%s' % (w['p'].exitcode, '' if inc else ' outside the compiled call'), byname)
+                if _confirm_crash(cf.get('call'), san):
+                    crashes.append(cf)
+                else:
+                    unconfirmed.append(cf)
                 skip = w['skip']
                 skip.setdefault(tid, set()).add(case[0])
                 start(wid, rest, skip)
@@ -335,6 +340,21 @@ def run_parallel(tasks, san=False, nproc=None, case_timeout=20.0):
             if inc and now - t0 > case_timeout:
                 w['p'].kill()
     return results, crashes
+
+
+def _confirm_crash(call_json, san):
+    """re-run one call alone in a fresh process (up to 120 s): a worker killed while the machine was merely busy is not a
+    crash of the kernel.  True = the call kills / hangs its process again (or cannot be re-run: fail closed)"""
+    if not call_json:
+        return True
+    code = ('import sys; sys.path.insert(0, %r); import kernels as K; '
+            'c = K.Call.from_json(sys.stdin.read()); K.run_compiled(c, %r); print("returned")' % (os.path.dirname(os.path.dirname(os.path.abspath(__file__))), bool(san)))
+    try:
+        p = subprocess.run([sys.executable, '-c', code], input=call_json, stdout=subprocess.PIPE, stderr=subprocess.PIPE,
+                           text=True, timeout=120, env=dict(os.environ))
+    except subprocess.TimeoutExpired:
+        return True
+    return not (p.returncode == 0 and 'returned' in p.stdout)
 
 
 def _crash_finding(tk, case, what, byname):
